@@ -145,6 +145,21 @@ func (p *Program) closeOverContracts(cfg Config, initial []UnitSpec) []*UnitResu
 		res := RunUnits(p, batch, cfg)
 		all = append(all, res...)
 		queue = nil
+		// clauses of the units themselves that are discharged by lemmas
+		for _, s := range batch {
+			if s.Kind != "function" || s.Fn.Pkg == nil {
+				continue
+			}
+			if ct := p.ContractOf(s.Fn); ct != nil {
+				for _, cl := range ct.Ensures {
+					if cl.ByLemma != "" {
+						if lf := s.Fn.Pkg.Func("gvcL_" + cl.ByLemma); lf != nil {
+							queue = append(queue, UnitSpec{Fn: lf, Opt: Options{}, Why: "lemma-backed clause", Kind: "lemma"})
+						}
+					}
+				}
+			}
+		}
 		used := map[string]bool{}
 		for _, r := range res {
 			for name := range r.Used {
